@@ -305,5 +305,85 @@ Definition captured_mutations : list (string * string * string * N) :=
 		fmt.Fprintf(&sb, "(%s, %s, %s, %s)", coqStr(a[0]), coqStr(a[1]), coqStr(a[2]), coqStr(a[3]))
 	}
 	sb.WriteString("].\n")
+	sb.WriteString(collationTransformFacts(repo))
+	return sb.String()
+}
+
+// collationTransformFacts: the results of (*CollationOrderKey[K]).Transform in keys.go, each classified as
+// "copy" (the expression, or the local it names, is `[]byte(string(x))`, `bytes.Clone(x)`,
+// `append([]byte(nil), x...)` or `append([]byte{}, x...)`: a slice that shares no memory with the argument
+// or with the collator's buffer) or "other" with its text (C13, C08: the tree keeps both results in the leaf).
+func collationTransformFacts(repo string) string {
+	f := parseFile(filepath.Join(repo, "keys.go"))
+	var res [][2]string
+	isCopy := func(e ast.Expr) bool {
+		c, ok := e.(*ast.CallExpr)
+		if !ok {
+			return false
+		}
+		switch exprText(c.Fun) {
+		case "[]byte":
+			if len(c.Args) == 1 {
+				if in, ok := c.Args[0].(*ast.CallExpr); ok && exprText(in.Fun) == "string" {
+					return true
+				}
+			}
+		case "bytes.Clone":
+			return len(c.Args) == 1
+		case "append":
+			if len(c.Args) == 2 && c.Ellipsis.IsValid() {
+				t := exprText(c.Args[0])
+				return t == "[]byte(nil)" || t == "[]byte{}"
+			}
+		}
+		return false
+	}
+	for _, d := range f.Decls {
+		fd, ok := d.(*ast.FuncDecl)
+		if !ok || fd.Body == nil || fd.Recv == nil || fd.Name.Name != "Transform" || !strings.Contains(exprText(fd.Recv.List[0].Type), "CollationOrderKey") {
+			continue
+		}
+		// locals assigned exactly once, by := , from a copying expression
+		local := map[string]bool{}
+		assigned := map[string]int{}
+		ast.Inspect(fd.Body, func(n ast.Node) bool {
+			if as, ok := n.(*ast.AssignStmt); ok {
+				for i, l := range as.Lhs {
+					id, ok := l.(*ast.Ident)
+					if !ok {
+						continue
+					}
+					assigned[id.Name]++
+					if as.Tok == token.DEFINE && len(as.Lhs) == len(as.Rhs) && isCopy(as.Rhs[i]) {
+						local[id.Name] = true
+					}
+				}
+			}
+			return true
+		})
+		ast.Inspect(fd.Body, func(n ast.Node) bool {
+			if rs, ok := n.(*ast.ReturnStmt); ok {
+				for _, r := range rs.Results {
+					cls := "other"
+					if isCopy(r) {
+						cls = "copy"
+					} else if id, ok := r.(*ast.Ident); ok && local[id.Name] && assigned[id.Name] == 1 {
+						cls = "copy"
+					}
+					res = append(res, [2]string{exprText(r), cls})
+				}
+			}
+			return true
+		})
+	}
+	var sb strings.Builder
+	sb.WriteString("\n(* keys.go, ( *CollationOrderKey[K]).Transform: every returned expression with its classification, \"copy\" = a slice\n   that shares no memory with the argument or with the collator's buffer ([]byte(string(x)), bytes.Clone(x),\n   append([]byte(nil), x...), or a local assigned once from such an expression), else \"other\" *)\nDefinition collation_transform_results : list (string * string) :=\n  [")
+	for i, r := range res {
+		if i > 0 {
+			sb.WriteString("; ")
+		}
+		fmt.Fprintf(&sb, "(%s, %s)", coqStr(r[0]), coqStr(r[1]))
+	}
+	sb.WriteString("].\n")
 	return sb.String()
 }
